@@ -32,6 +32,16 @@ def det_pools():
     pools.append({"name": "fourvars", "heap": b.h, "roots": [m, q, pw], "vars": ["x", "y", "w", "v"],
                   "points": [P(x=2, y=3, w=5, v=7), P(x=-1, y=(1, 2), w=0, v=1), P(x=1, y=2, w=3, v=0)], "nums": [gen.q(1)],
                   "switch": [{"r": q, "v": "x"}, {"r": m, "v": "w"}]})
+    # a quotient whose symbolic partials take many rewrite steps, several variables, and a point that lacks a coordinate
+    b = gen.HeapB()
+    x = b.var("x"); y = b.var("y"); z = b.var("z")
+    den = b.bin("Minus", b.nary("Add", b.nary("Multiply", z, z), b.nary("Add", x, y)), b.nary("Add", b.kun("NthRoot", x, 3), b.kun("NthRoot", x, 2)))
+    hv = b.bin("Divide", z, den)
+    ly = b.nary("Multiply", b.bun("Logarithm", x, J.E_), y)
+    lr = b.nary("Multiply", b.bun("Logarithm", x, J.E_), b.un("Reciprocal", y))
+    pools.append({"name": "heavy", "heap": b.h, "roots": [hv, ly, lr], "vars": ["x", "y", "z"],
+                  "points": [P(x=4, y=1, z=3), P(x=1, y=2, z=(1, 2)), P(x=-1, y=0, z=1), P(x=-1), P(x=2, z=1)], "nums": [gen.q(2)],
+                  "switch": [{"r": hv, "v": "x"}, {"r": ly, "v": "y"}]})
     return pools
 
 
